@@ -102,4 +102,30 @@ def copyString (dstLen : Nat) (src : Str) : Nat × Str :=
   let n := min src.length dstLen
   (n, src.take n)
 
+/-- `TypedArray.prototype.subarray(lo, hi)` for 0 ≤ lo, hi (clamped to the array) -/
+def subarray (a : List Nat) (lo hi : Nat) : List Nat := (a.take hi).drop lo
+
+/-- prelude.js `$bytesToString` (lines 320-329): the loop `for (i = 0; i < length; i += chunk)` appending
+    `fromCharCode.apply(subarray(offset + i, offset + min(length, i + chunk)))`; `chunk` = 10000 in the code.
+    Fuel bounds the number of iterations. -/
+def bytesToStringAux (a : List Nat) (offset length chunk : Nat) : Nat → Nat → List Nat
+  | 0, _ => []
+  | fuel + 1, i =>
+    if i < length then
+      subarray a (offset + i) (offset + min length (i + chunk)) ++ bytesToStringAux a offset length chunk fuel (i + chunk)
+    else []
+
+def bytesToStringChunk (chunk : Nat) (a : List Nat) (offset length : Nat) : List Nat :=
+  if length = 0 then [] else bytesToStringAux a offset length chunk (length + 1) 0
+
+def bytesToString := bytesToStringChunk 10000
+
+/-- `$stringToBytes`: `array[i] = str.charCodeAt(i)` into a Uint8Array (values are bytes already) -/
+def stringToBytes (s : Str) : List Nat := s.map (· % 256)
+
+/-- string indexing as emitted by compiler/expressions.go (IndexExpr on a string, non-constant operands):
+    `(i < 0 || i >= s.length ? $throwRuntimeError("index out of range") : s.charCodeAt(i))`; `none` = panic -/
+def indexString (s : Str) (i : Int) : Option Nat :=
+  if i < 0 || i ≥ s.length then none else charCodeAt s i.toNat
+
 end GV.Utf8
